@@ -15,7 +15,7 @@ definitions themselves (defining relations of Jacobi/SOR/SSOR, block inverse, LU
 fill => A^-1, linearity, blocked definitions with BS = 1 == scalar definitions, level recurrence == fill-path
 characterisation) on every generated input.
 """
-import os, json
+import os, json, hashlib
 import concurrent.futures as cf
 import vlib
 import c08x
@@ -161,9 +161,21 @@ def generate(chk, consume=None):
     cases = []
     try:
         with cf.ThreadPoolExecutor(max_workers=6) as ex:
-            futs = [(part, name, ex.submit(vlib.tlc, module, fn, timeout=2400, xmx="3g", tag="c08_%d" % k))
-                    for k, (part, module, name, fn) in enumerate(names)]
-            for part, name, f in futs:
+            # at most six runs are running or finished-but-not-yet-replayed at any time, and they are consumed in the order in
+            # which they COMPLETE (finished runs waiting for the replayer would keep millions of cases in memory)
+            todo = list(enumerate(names))
+            by_fut = {}
+
+            def completed():
+                while todo or by_fut:
+                    while todo and len(by_fut) < 6:
+                        k, (part, module, name, fn) = todo.pop(0)
+                        by_fut[ex.submit(vlib.tlc, module, fn, timeout=2400, xmx="3g", tag="c08_%d" % k)] = (part, name)
+                    done, _ = cf.wait(list(by_fut), return_when=cf.FIRST_COMPLETED)
+                    for f in done:
+                        yield by_fut.pop(f) + (f,)
+
+            for part, name, f in completed():
                 r = f.result()
                 chk.add_tlc(r, name)
                 if r.violation:
@@ -203,6 +215,11 @@ def sig(c, r):
 
 
 def key(c):
+    # a 16 hex digit digest of the identifying fields (millions of full keys cost gigabytes in the thorough tier)
+    return hashlib.blake2b(_key(c).encode(), digest_size=8).hexdigest()
+
+
+def _key(c):
     part = c.get("_part", "scalar")
     if part == "ilusym":
         return json.dumps(["ilusym", c["n"], c["pat"]])
